@@ -1770,13 +1770,20 @@ class FileBuilder:
             if self._try_to_reuse_cached_file():
                 return operation.return_value
 
-            if not os.path.isfile(filename):
-                self._backups.record_absent(filename)
-            elif self._backups.back_up_and_remove(filename):
-                logger.info(
-                    'Moved {:s} to a temporary directory, in preparation for '
-                    'rebuilding the file'.format(filename))
+            # Claim the file before touching it. Otherwise, if another thread is
+            # building the same file, we might move its output file away before
+            # start_building_file raises.
             self._new_cache.start_building_file(filename)
+            try:
+                if not os.path.isfile(filename):
+                    self._backups.record_absent(filename)
+                elif self._backups.back_up_and_remove(filename):
+                    logger.info(
+                        'Moved {:s} to a temporary directory, in preparation '
+                        'for rebuilding the file'.format(filename))
+            except Exception:
+                self._new_cache.abort_building_file(filename)
+                raise
         except Exception:
             self._build_dirs.error_building_file(filename)
             raise
